@@ -122,7 +122,10 @@ SPEC = {
             'sums 1+-2^-21, 1+-2^-20, uniform, thirds/tenths) x a sweep of exactly scripted draws (0, 1/2, 1-2^-53, every breakpoint and its two 2^-53 '
             'neighbours, draws in the last 1e-6 of [0,1), random) for the dense and sparse samplers; alias tables reconstructed from behaviour by bisection '
             'over the 53-bit draw grid; projection inputs (valid, any sign, all negative, zero sum, near-tolerance); scripted makeRandomProbability draws; '
-            'MDP/POMDP dense and sparse model objects with the object\'s mt19937 mirrored. non-trivial = length >= 2; distinct by protocol line',
+            'MDP/POMDP dense and sparse model objects with the object\'s mt19937 mirrored (Seeder mirrored independently of the library), built on four routes (tables, NO_CHECK, setters, copy); '
+            'round 4: D x R x C tables with one defective row for the six matrix overloads of isProbability; rollouts (1..10/24 steps, history-dependent actions) on MDP/POMDP/cooperative objects; '
+            'CooperativeModel over random DDNs (non-uniform sizes, non-prefix tags of up to three keys); learned models (MaximumLikelihoodModel, sparse, cooperative); factored bandits (joint actions and flattened ids). '
+            'non-trivial = length >= 2; distinct by protocol line',
     'modelled': ['include/AIToolbox/Utils/Probability.hpp: isProbability (template), sampleProbability (dense template, sparse-row overload), '
                  'makeRandomProbability, VoseAliasSampler::sampleProbability',
                  'src/Utils/Probability.cpp: projectToProbability, VoseAliasSampler::VoseAliasSampler',
@@ -131,12 +134,17 @@ SPEC = {
                  'src/Factored/Utils/BayesianNetwork.cpp: DDNGraph::push (startIds_), getIds, getId, DDN::getTransitionProbability; '
                  'src/Factored/Utils/FactoredMatrix.cpp: FactoredMatrix2D::getValue — all driven by the harness with the whole model on the protocol line',
                  'src/MDP/SparseModel.cpp sampleSR, include/AIToolbox/POMDP/SparseModel.hpp sampleSOR/sampleOR over the stored sparse rows and the stored reward table',
-                 'include/AIToolbox/Utils/Probability.hpp: sampleDirichletDistribution, sampleBetaDistribution as functions of their gamma draws'],
+                 'include/AIToolbox/Utils/Probability.hpp: sampleDirichletDistribution, sampleBetaDistribution as functions of their gamma draws',
+                 'round 4: src/Utils/Probability.cpp + Probability.hpp: all six matrix overloads of isProbability (SparseMatrix2D as after 54353bc); sequences of samples through one engine (rollouts of MDP::Model::sampleSR, POMDP::Model::sampleSOR, CooperativeModel::sampleSR); '
+                 'MaximumLikelihoodModel / SparseMaximumLikelihoodModel / CooperativeMaximumLikelihoodModel::sampleSR (same compositions); Bandit::Model, Factored::Bandit::Model, FlattenedModel::sampleR; '
+                 'engine seeding of all 25 constructors of the sampling objects (translator: member initialisers; harness: inverse-CDF images of an independently seeded mt19937)'],
     'assumptions': ['libstdc++ std::uniform_real_distribution<double>(a,b) draws one canonical u in [0,1) per call (2 engine words) and returns a+u*(b-a); the harness measures the value it returns for the scripted words, the driver checks the word count',
                     'std::sort is modelled by List.mergeSort (result depends only on the multiset: randomProbability_perm_invariant)',
                     'VoseAliasSampler table is private: reconstructed behaviourally (switch point of each column found by bisection), cross-checked by vsample lines',
                     'avg = 1.0/n is passed to the model as the exact double the code computes; vose_correct instantiates avg = 1/n, vose_correct_any_avg / vose_correct_double_avg bound the effect of avg = fl(1/n)',
                     'Eigen compressed row-major storage: InnerIterator of a row visits its stored entries in column order',
+                    'AIToolbox::Seeder hands out the successive words of an mt19937 seeded with the root seed (uniform_int_distribution<unsigned>(0, max) on a 32-bit engine of full range returns the raw word): mirrored by the harness without calling the library; the text of getSeed / setRootSeed is pinned',
+                    'Bandit arms are std::uniform_real_distribution<double>(lo, hi): a + u*(b-a) for the canonical draw u (compared to 1e-9; the upper end may be reached by rounding)',
                     'std::gamma_distribution is not modelled: its draws are replayed from a copy of the engine and assumed positive and finite (draws that underflow to 0 are skipped and counted)',
                     'projectToProbability: finite inputs only (NaN / +-inf entries are outside the quantifier, see docs/C08.md); overflow of the double sum is finding C08-project-sum-overflow'],
 }
